@@ -78,7 +78,7 @@ PROPS = {
                     'acceptance IS under contract: convert ensures `r is Err ==> convert_rejects(f)`: a layout is refused only if a source mapping cannot be expanded (undefined alias; for some combination an output-side alias that does not occur on the trigger side, a repeat with more letters than the output, an unknown or too short row, a character that cannot be typed), a repeat-only entry cannot be applied, or the converted layout contains a mapping the mapper cannot run (check_mapping_is_usable is exact); assumed for it: Chars::count returns the number of characters left',
                     'NOT under contract (named, unproved): the equivalence of spellings (bare string vs one-element array, case of row / repeat names: these live in the parser, which is verified for panic-freedom only); the bounded extra programs_bounded compares spellings and acceptance on generated programs',
                     'an alias name that occurs twice among the trigger modifiers is resolved on the output side to its LAST trigger-side occurrence (what the code does; the statement does not say)'],
-                witness='loader', extras=['tables_enum', 'programs_bounded']),
+                witness='loader', extras=['tables_enum', 'programs_bounded', 'ord_sort_enum']),
     'C17': dict(units=['udev'], level='proof', extras=['udev_enum'], witness=None,
                 trusted_base=TB_COMMON[:2] + [
                     'the specification of systemd\'s ExecStart parsing in /verif/spec/sd.rs (written from systemd.syntax(7) / systemd.service(5): word splitting at unquoted whitespace, quotes, C-style escapes, lone `;`, %% and $$); octal and \\U escapes are treated as not accepted, which only makes the oracle stricter',
